@@ -1,6 +1,7 @@
 (* Props/C06.v — property C06: single-threaded and parallel traversal report the same entries, once each.
    Only statements; every proof is one `exact` (or a vm_compute witness).  The Check lines pin the statements. *)
-From RG Require Import Base.Bytes Model.Walk Proofs.WalkProofs.
+From RG Require Import Base.Bytes Model.Walk Spec.WalkSpec Proofs.WalkProofs Proofs.WalkTotal.
+From Coq Require Import Permutation.
 
 (* 1. The skipping decision of the serial walker (Walk::skip_entry) and of the parallel walker
       (the checks of Worker::generate_work) are the same boolean function of (matcher stack, entry),
@@ -94,6 +95,74 @@ Theorem loop_reported :
 Proof. exact loop_reported_proof. Qed.
 Print Assumptions loop_reported.
 
+(* 5. parallel_set_eq_spec, total (and loop_detected_and_terminates): on every file system whose
+      directories form a forest (some ranking increases towards sub-directories; symbolic links may
+      point anywhere, cycles included) the parallel walker finishes — an explicit amount of fuel
+      suffices and any larger amount gives the same result — every root's descent tree is finite, and
+      what was reported is a permutation of the root messages and those trees.  The hypothesis
+      `= Some outs` of theorem 3 is gone. *)
+Theorem parallel_terminates_and_reports_descent :
+  forall (fs : fsys) (max_depth : option nat) (max_filesize : option N) (follow_links same_fs has_filter : bool)
+         (filter : dent -> bool) (should_skip : igstack -> dent -> bool) (rk : nat -> nat) (B : nat)
+         (roots : list (bytes * nat)),
+    ranked fs rk B ->
+    exists k outs each,
+      (forall F, par_walk fs max_depth max_filesize follow_links same_fs has_filter filter should_skip (k + F) roots = Some outs) /\
+      Forall2 (descent fs max_depth max_filesize follow_links has_filter filter should_skip)
+              (flat_map snd (map (par_root fs same_fs) roots)) each /\
+      Permutation outs (flat_map fst (map (par_root fs same_fs) roots) ++ concat each).
+Proof. exact (fun fs md mf fl sf hf filt sk => par_total_proof fs md mf fl sf hf filt sk). Qed.
+Print Assumptions parallel_terminates_and_reports_descent.
+
+(* 5b. the fact behind it: every work item has a (finite) descent.  With follow_links a directory
+       reached through a link is never one of its own ancestors (theorem 4), so along any path the
+       set of ancestor inodes grows or the rank does: a lexicographic measure decreases. *)
+Theorem loop_detected_and_terminates :
+  forall (fs : fsys) (max_depth : option nat) (max_filesize : option N) (follow_links has_filter : bool)
+         (filter : dent -> bool) (should_skip : igstack -> dent -> bool) (rk : nat -> nat) (B : nat),
+    ranked fs rk B -> forall w : work, dent_ok fs (w_dent w) ->
+    exists D, descent fs max_depth max_filesize follow_links has_filter filter should_skip w D.
+Proof. exact descent_exists. Qed.
+Print Assumptions loop_detected_and_terminates.
+
+(* 6. serial_set_eq_spec + each_once for the serial walker (walkdir's stack of open directories,
+      WalkEventIter's depth counter and one-element buffer, Walk::next with its matcher stack,
+      skip_current_dir, is_descended): given the descent trees of the roots, the serial walker
+      finishes and what it reported is — kind, path and depth — a permutation of the root messages
+      and those trees: every reachable, non-skipped entry exactly once, each loop / dangling-link error
+      once, nothing else.  (Compared on (kind, path, depth): a root that is a symlink to a directory is
+      reported with the link's file type by the serial walker and the target's by the parallel one.) *)
+Theorem serial_set_eq_spec :
+  forall (fs : fsys) (max_depth : option nat) (max_filesize : option N) (follow_links same_fs has_filter : bool)
+         (filter : dent -> bool) (should_skip : igstack -> dent -> bool)
+         (roots : list (bytes * nat)) (each : list (list out)),
+    links_ok fs ->
+    Forall2 (descent fs max_depth max_filesize follow_links has_filter filter should_skip)
+            (flat_map snd (map (par_root fs same_fs) roots)) each ->
+    exists n souts,
+      (forall F, serial_walk fs max_depth max_filesize follow_links same_fs has_filter filter should_skip (n + F) roots = Some souts) /\
+      Permutation (map okey souts) (map okey (flat_map fst (map (par_root fs same_fs) roots) ++ concat each)).
+Proof. exact serial_descent_proof. Qed.
+Print Assumptions serial_set_eq_spec.
+
+(* 7. the property: for every file system (forest of directories, resolved links), every
+      configuration (max_depth, max_filesize, follow_links, same_file_system, filter_entry), every
+      ignore verdict function and every list of roots, both walkers finish and deliver the same
+      multiset of (kind, path, depth): the same entries, each once, and the same errors. *)
+Theorem serial_eq_parallel :
+  forall (fs : fsys) (max_depth : option nat) (max_filesize : option N) (follow_links same_fs has_filter : bool)
+         (filter : dent -> bool) (should_skip : igstack -> dent -> bool) (rk : nat -> nat) (B : nat)
+         (roots : list (bytes * nat)),
+    ranked fs rk B -> links_ok fs ->
+    exists n souts pouts,
+      (forall F, serial_walk fs max_depth max_filesize follow_links same_fs has_filter filter should_skip (n + F) roots = Some souts) /\
+      (forall F, par_walk fs max_depth max_filesize follow_links same_fs has_filter filter should_skip (n + F) roots = Some pouts) /\
+      Permutation (map okey souts) (map okey pouts).
+Proof. exact serial_eq_parallel_proof. Qed.
+Print Assumptions serial_eq_parallel.
+
+(* non-vacuity of the hypotheses: the file system of loop_example below (a directory containing a
+   file and a link back to itself) is a ranked forest with resolved links *)
 (* non-vacuity of 3 and 4: a tree with a cycle t/{a, l -> .}: both walkers finish, report t, t/a and
    one Loop error for t/l *)
 Definition loop_fs : fsys :=
@@ -115,6 +184,23 @@ Example skip_example :
   /\ par_skip d5_fs (Some 10%N) true (fun _ => false) (fun _ _ => false) [] d5_ent = true.
 Proof. vm_compute. split; reflexivity. Qed.
 
+Example loop_fs_wf : ranked loop_fs (fun i => i) 3 /\ links_ok loop_fs.
+Proof.
+  split.
+  - intros i name j H HT. destruct i as [|[|[|[|i]]]]; cbn in H; try contradiction.
+    destruct H as [H|[H|[]]]; injection H as <- <-; cbn in HT; discriminate.
+  - intros i t H. destruct i as [|[|[|[|i]]]]; cbn in H; injection H as <-; cbn; discriminate.
+Qed.
+
+Check serial_eq_parallel :
+  forall (fs : fsys) (max_depth : option nat) (max_filesize : option N) (follow_links same_fs has_filter : bool)
+         (filter : dent -> bool) (should_skip : igstack -> dent -> bool) (rk : nat -> nat) (B : nat)
+         (roots : list (bytes * nat)),
+    ranked fs rk B -> links_ok fs ->
+    exists n souts pouts,
+      (forall F, serial_walk fs max_depth max_filesize follow_links same_fs has_filter filter should_skip (n + F) roots = Some souts) /\
+      (forall F, par_walk fs max_depth max_filesize follow_links same_fs has_filter filter should_skip (n + F) roots = Some pouts) /\
+      Permutation (map okey souts) (map okey pouts).
 Check skip_serial_eq_skip_parallel :
   forall (fs : fsys) (max_filesize : option N) (has_filter : bool) (filter : dent -> bool)
          (should_skip : igstack -> dent -> bool) (ig : igstack) (e : dent),
